@@ -385,8 +385,8 @@ def make_machine(ctx: Any, ctx_state: Dict[str, Any]) -> Any:
 
 def parts(tier: str) -> List[Part]:
     if tier == "thorough":
-        return [Part("roundtrips", "given", shards=12, examples=6000, strategy=roundtrips, soft_deadline_s=1500),
-                Part("kicker_histories", "machine", shards=4, examples=3000, machine=make_machine, steps=30, soft_deadline_s=1500)]
+        return [Part("roundtrips", "given", shards=12, examples=15000, strategy=roundtrips, soft_deadline_s=3000),
+                Part("kicker_histories", "machine", shards=4, examples=6000, machine=make_machine, steps=30, soft_deadline_s=3000)]
     return [Part("roundtrips", "given", shards=6, examples=600, strategy=roundtrips, soft_deadline_s=120),
             Part("kicker_histories", "machine", shards=2, examples=250, machine=make_machine, steps=20, soft_deadline_s=120)]
 
